@@ -251,6 +251,26 @@ def parse_cases(prop, tier, skip_opts=True):
     for s in strs:
         cases.append((s, 0, ()))
         cases.append((s, 1, ()))
+    # names around the library's special tables (read from /repo at run time)
+    try:
+        from TexSoup.reader import SIGNATURES
+        from TexSoup.tokens import MATH_ENV_NAMES, SKIP_ENV_NAMES, SPECIAL_COMMANDS
+        for k in sorted(SIGNATURES):
+            for nm in (k, k + '*', k + 's', 'x' + k):
+                for tail in ('{a}{b} c', ' x', '[o]{a}', '{a}\n\n{b}', '\\y z', ' [', ''):
+                    cases.append(('p \\%s%s' % (nm, tail), 0, ()))
+                    cases.append(('$\\%s%s$' % (nm, tail), 1, ()))
+        for nm in list(MATH_ENV_NAMES) + list(SKIP_ENV_NAMES) + ['itemize', 'document', 'zz']:
+            for body in ('x', '$', '\\item a', '{', 'a \\b{c} ]', '\\begin{q}', '% c\n'):
+                d = '\\begin{%s}%s\\end{%s} t' % (nm, body, nm)
+                for sk in ((), (nm,), ('zz',)):
+                    cases.append((d, 0, sk))
+                    cases.append(('\\begin{a}' + d + '\\end{a}', 1, sk))
+        for nm in sorted(SPECIAL_COMMANDS):
+            for body in ('{\\x}{\\begin{y}}', '{\\x}[1]{\\begin{y}#1}', '{\\x}[2][d]{\\end{y}}', '\\x{\\begin{y}}'):
+                cases.append(('\\%s%s t \\begin{y}u\\end{y}' % (nm, body), 0, ()))
+    except Exception:      # noqa
+        pass
     if skip_opts:
         for s in docs[:nd // 2]:
             cases.append((s, 0, ('a', 'center', 'equation')))
